@@ -278,6 +278,22 @@ def c06_6(ctx, r):
     for s in ctx.some_sites(jr, "C06.6", short="JobRunner._run_jobs"):
         a = ctx.arg_for(s, fn, "num_parallel_processes_per_node")
         r.check(isinstance(a, ast.Name) and a.id == "num_parallel_processes_per_node", "JobRunner.run_jobs forwards it to _run_jobs", key_of(jr, "forward option"), s.loc, f"run_jobs passes {ctx.src(a) if a is not None else None}")
+    # HPC mode: the batch's run script carries the group's limit whenever it is set (and whatever else is set)
+    crs = ctx.fn("HpcSubmitter._create_run_script", "C06.6")
+    cfg2 = ctx.cfg(crs)
+    opt_nodes = [n for n in cfg2.nodes if n.kind == "stmt" and isinstance(n.ast, (ast.AugAssign, ast.Assign)) and any(isinstance(x, ast.Constant) and isinstance(x.value, str) and "--num-parallel-processes-per-node=" in x.value for x in ast.walk(n.ast))]
+    if len(opt_nodes) != 1:
+        r.bad(key_of(crs, "process limit option"), crs.loc(), f"the run script appends --num-parallel-processes-per-node= in {len(opt_nodes)} statements: the group's limit does not reach `jade-internal run-jobs` on the node (it falls back to the CPU count)",
+              "at most the configured processes-per-node")
+    for n in opt_nodes:
+        vals = [render(ctx, crs, x.value) for x in ast.walk(n.ast) if isinstance(x, ast.FormattedValue)]
+        r.check("<SubmitterParams.num_parallel_processes_per_node>" in vals, "the option value is the group's processes-per-node", key_of(crs, "process limit value"), crs.loc(n.ast), f"the option value is {vals}")
+        forms = guard_forms(ctx, crs, n)
+        extra = sorted(("" if p else "not ") + f for f, p in forms if "num_parallel_processes_per_node" not in f)
+        okn = any((not p) and "num_parallel_processes_per_node" in f and "is None" in f for f, p in forms)
+        r.check(okn and not extra, "the option is emitted iff the group sets the limit", key_of(crs, f"process limit option also depends on {extra}"), crs.loc(n.ast),
+                f"--num-parallel-processes-per-node is written under {sorted(('' if p else 'not ') + f for f, p in forms)}: for some settings of the other options the configured limit never reaches the node, "
+                "which then runs as many processes as it has CPUs", "at most the configured processes-per-node (or the node's CPU count when unset)")
     # local mode: submit_jobs passes the group's value
     sj = ctx.fn("JobSubmitter.submit_jobs", "C06.6")
     for s in ctx.some_sites(sj, "C06.6", short="JobRunner.run_jobs"):
@@ -324,6 +340,28 @@ def c06_8(ctx, r):
     from .c18 import c18_3
 
     c18_3(ctx, r)
+    own_id_removed_only_without_scheduler(ctx, r, "C06.8")
+
+
+def own_id_removed_only_without_scheduler(ctx, r, rid):
+    """Besides the submitter round (which polls first), the only writer of the persisted active list is a finishing
+    node removing its own id.  While that node's HPC job is still running this is right only when there is no
+    scheduler counting it (HpcType.LOCAL); on a real scheduler the batch stays active until squeue says otherwise."""
+    n = 0
+    for f in ctx.ix.functions.values():
+        for s in ctx.cg.sites_in(f):
+            if not s.calls_short(ctx.ix, "JobRunner._complete_hpc_job"):
+                continue
+            n += 1
+            for node in ctx.nodes_of(f, s.node):
+                forms = guard_forms(ctx, f, node, ALL_KINDS, kill=False)
+                ok = any(p and f2.replace(" ", "") in ("<JobRunner._intf_type>==HpcType.LOCAL", "HpcType.LOCAL==<JobRunner._intf_type>") for f2, p in forms)
+                r.check(ok, f"{f.short}: the node removes its own id only under HpcType.LOCAL", key_of(f, "own id removed while the scheduler still runs the batch"), s.loc,
+                        f"`{ctx.src(s.node)}` is reachable without `self._intf_type == HpcType.LOCAL`: a SLURM node deletes its own id from hpc_job_ids while its allocation is still active, so the try-submit-jobs it runs next "
+                        "counts one batch too few and submits max-nodes + 1", "the number of this submission's batches queued or running on the HPC is at most max-nodes",
+                        guards=sorted(("" if p else "not ") + f2 for f2, p in forms))
+    if n < 1:
+        raise AnalysisError(rid, "no call of JobRunner._complete_hpc_job found")
 
 
 @rule(P, "C06.9", "T1", "the persisted active-batch list is rewritten whenever it changed (the next round starts from it)", min_obligations=1)
@@ -331,3 +369,10 @@ def c06_9(ctx, r):
     from .c05 import ids_persisted_when_changed
 
     ids_persisted_when_changed(ctx, r, "C06.9")
+
+
+@rule(P, "C06.10", "T13", "a batch the scheduler accepted is counted as active: submit() fails only for sbatch failure or an answer without a job id", min_obligations=3)
+def c06_10(ctx, r):
+    from .c18 import submit_returns
+
+    submit_returns(ctx, r, "C06.10")
